@@ -287,6 +287,46 @@ theorem builtin_arrow (n : Nat) (a b : Term) (k : Cont) (env : Env) (m : MS) :
   rw [builtin]
   all_goals simp
 
+/-- `callN` -/
+theorem builtin_callN (n : Nat) (g e : Term) (es : List Term) (k : Cont) (env : Env) (m : MS) :
+    builtin (n + 1) "call" (g :: e :: es) k env m =
+      match res env g with
+      | .var _ => some (some (mkErr instErr env m))
+      | .atom a => some (some (callGoal (.app a (Args.ofList (e :: es))) k env m))
+      | .app a as => some (some (callGoal (.app a (Args.ofList (as.toList ++ e :: es))) k env m))
+      | other => some (some (mkErr (typeErr "callable" other) env m)) := by
+  rw [builtin]
+  rfl
+
+theorem builtin_callN_var (n : Nat) (g e : Term) (es : List Term) (k : Cont) (env : Env) (m : MS) (v : Nat)
+    (hr : res env g = .var v) :
+    builtin (n + 1) "call" (g :: e :: es) k env m = some (some (mkErr instErr env m)) := by
+  rw [builtin_callN, hr]
+
+theorem builtin_callN_some (n : Nat) (g e : Term) (es : List Term) (k : Cont) (env : Env) (m : MS) (g0 G : Term)
+    (hr : res env g = g0) (h : addArgsVM g0 (e :: es) = some G) :
+    builtin (n + 1) "call" (g :: e :: es) k env m = some (some (callGoal G k env m)) := by
+  rw [builtin_callN, hr]
+  cases g0 with
+  | atom a => simp only [addArgsVM, Option.some.injEq] at h; subst h; rfl
+  | app a as => simp only [addArgsVM, Option.some.injEq] at h; subst h; rfl
+  | var _ => simp [addArgsVM] at h
+  | int _ => simp [addArgsVM] at h
+  | flt _ => simp [addArgsVM] at h
+  | str _ => simp [addArgsVM] at h
+
+theorem builtin_callN_none (n : Nat) (g e : Term) (es : List Term) (k : Cont) (env : Env) (m : MS) (g0 : Term)
+    (hr : res env g = g0) (h : addArgsVM g0 (e :: es) = none) (hnv : ∀ v, g0 ≠ .var v) :
+    builtin (n + 1) "call" (g :: e :: es) k env m = some (some (mkErr (typeErr "callable" g0) env m)) := by
+  rw [builtin_callN, hr]
+  cases g0 with
+  | var v => exact absurd rfl (hnv v)
+  | atom _ => simp [addArgsVM] at h
+  | app _ _ => simp [addArgsVM] at h
+  | int _ => rfl
+  | flt _ => rfl
+  | str _ => rfl
+
 theorem userPred_semi : userPred ";" 2 = false := by simp [userPred, reservedNames]
 theorem userPred_arrow : userPred "->" 2 = false := by simp [userPred, reservedNames]
 
